@@ -278,7 +278,7 @@ theorem hexAddCell_accept (k : Kernel) (hfs : List Nat) (chk : Bool) (c : Nat)
         · rename_i hco
           simp only [hco, if_true]
           obtain ⟨a, b, d⟩ := key _ _ h
-          exact ⟨a, b, hfs, d, hl, hv, Or.inr (Or.inl ⟨hct, rfl, hco⟩)⟩
+          exact ⟨a, b, hfs, d, hl, hv, Or.inr (Or.inl ⟨hct, rfl, by first | rfl | trivial | exact hco⟩)⟩
         · rename_i hco
           simp only [hco, if_false, Bool.false_eq_true]
           split at h
@@ -286,7 +286,7 @@ theorem hexAddCell_accept (k : Kernel) (hfs : List Nat) (chk : Bool) (c : Nat)
           · rename_i ord hre
             simp only [hre]
             obtain ⟨a, b, d⟩ := key _ _ h
-            exact ⟨a, b, ord, d, hexReorder_length k hfs ord hre, hv, Or.inr (Or.inr ⟨hct, by simpa using hco, hre⟩)⟩
+            exact ⟨a, b, ord, d, hexReorder_length k hfs ord hre, hv, Or.inr (Or.inr ⟨hct, by first | (simpa using hco) | simp | trivial, by first | rfl | exact hre⟩)⟩
 
 theorem hexAddCell_len (k : Kernel) (hfs : List Nat) (chk : Bool) (h : HexLen k) : HexLen (k.hexAddCell hfs chk).1 := by
   cases hr : (k.hexAddCell hfs chk).2 with
@@ -294,6 +294,446 @@ theorem hexAddCell_len (k : Kernel) (hfs : List Nat) (chk : Bool) (h : HexLen k)
   | some c =>
     obtain ⟨_, hf, l, hc, hl, _⟩ := hexAddCell_accept k hfs chk c hr
     exact h.add_cell l hl hf hc
+
+/-! ### add_cell(vertices) -/
+
+theorem hexCellVStep_len (vs : List Nat) (st : Kernel × List (Option Nat)) (a : Nat × List Nat × Nat)
+    (hl : a.2.1.length = 4) (h : HexLen st.1) : HexLen (hexCellVStep vs st a).1 := by
+  unfold hexCellVStep
+  split
+  · exact h
+  · exact addFaceV_len4 _ _ (by simp [hexPick, hl]) h
+
+theorem hexCellV_fold_len (vs : List Nat) (adds : List (Nat × List Nat × Nat)) (hl : ∀ a ∈ adds, a.2.1.length = 4)
+    (st : Kernel × List (Option Nat)) (h : HexLen st.1) : HexLen (adds.foldl (hexCellVStep vs) st).1 := by
+  induction adds generalizing st with
+  | nil => exact h
+  | cons a t ih =>
+    simp only [List.foldl_cons]
+    exact ih (fun b hb => hl b (List.mem_cons_of_mem _ hb)) _ (hexCellVStep_len vs st a (hl a (List.mem_cons_self ..)) h)
+
+theorem cellVAdd_quads : ∀ a ∈ cellVAdd, a.2.1.length = 4 := by decide
+theorem cellVOrder_six : cellVOrder.length = 6 := by decide
+
+theorem hexAddCellV_len (k : Kernel) (vs : List Nat) (chk : Bool) (h : HexLen k) : HexLen (k.hexAddCellV vs chk).1 := by
+  unfold hexAddCellV
+  split
+  · exact h
+  · split
+    · exact h
+    · simp only []
+      have h1 := hexCellV_fold_len vs cellVAdd cellVAdd_quads (k, cellVFind.map (fun idxs => k.findHalffaceExtensive (hexPick vs idxs))) h
+      generalize (cellVAdd.foldl (hexCellVStep vs) (k, cellVFind.map (fun idxs => k.findHalffaceExtensive (hexPick vs idxs)))) = st at h1 ⊢
+      split
+      · exact h1.of_eq rfl rfl
+      · rename_i hsome
+        have hall : (cellVOrder.map (fun i => st.2.getD i none)).all (·.isSome) = true := by
+          simp only [List.any_eq_true, not_exists, not_and, Bool.not_eq_true] at hsome
+          rw [List.all_eq_true]
+          intro x hx
+          have := hsome x hx
+          cases x <;> simp_all
+        have hl6 : ((cellVOrder.map (fun i => st.2.getD i none)).filterMap id).length = 6 := by
+          rw [filterMap_id_length_of_all_some _ hall]; simp [cellVOrder_six]
+        have key : HexLen (st.1.addCell ((cellVOrder.map (fun i => st.2.getD i none)).filterMap id) false).1 := by
+          obtain ⟨hf, hc⟩ := addCell_cells st.1 ((cellVOrder.map (fun i => st.2.getD i none)).filterMap id) false
+          rcases hc with ⟨_, e⟩ | ⟨_, e⟩
+          · rw [e]; exact h1
+          · exact h1.add_cell _ hl6 hf e
+        repeat' split
+        all_goals first | exact key | exact h1
+
+/-! ### HexLen under index swaps, `delete_cell`, and deferred deletion -/
+
+def AllLen (n : Nat) (l : List (List Nat)) : Prop := ∀ x ∈ l, x.length = n
+
+theorem hexLen_iff (k : Kernel) : HexLen k ↔ AllLen 4 k.faces ∧ AllLen 6 k.cells := Iff.rfl
+
+theorem allLen_swapAt {n : Nat} {l : List (List Nat)} (h : AllLen n l) (i j : Nat) : AllLen n (swapAt l i j) := by
+  unfold swapAt
+  split
+  · rename_i a b ha hb
+    intro x hx
+    rcases List.mem_or_eq_of_mem_set hx with hx | rfl
+    · rcases List.mem_or_eq_of_mem_set hx with hx | rfl
+      · exact h x hx
+      · exact h _ (List.mem_of_getElem? hb)
+    · exact h _ (List.mem_of_getElem? ha)
+  · exact h
+
+theorem allLen_modify {n : Nat} {l : List (List Nat)} (h : AllLen n l) (c : Nat) (g : List Nat → List Nat)
+    (hg : ∀ x, (g x).length = x.length) : AllLen n (l.modify c g) := by
+  induction l generalizing c with
+  | nil => simpa using h
+  | cons a t ih =>
+    cases c with
+    | zero =>
+      intro x hx
+      simp only [List.modify_zero_cons, List.mem_cons] at hx
+      rcases hx with rfl | hx
+      · rw [hg]; exact h a (List.mem_cons_self ..)
+      · exact h x (List.mem_cons_of_mem _ hx)
+    | succ c =>
+      intro x hx
+      simp only [List.modify_succ_cons, List.mem_cons] at hx
+      rcases hx with rfl | hx
+      · exact h _ (List.mem_cons_self ..)
+      · exact ih (fun y hy => h y (List.mem_cons_of_mem _ hy)) c x hx
+
+theorem allLen_foldl_modify {n : Nat} (g : List Nat → List Nat) (hg : ∀ x, (g x).length = x.length)
+    (cs : List Nat) (l : List (List Nat)) (h : AllLen n l) : AllLen n (cs.foldl (fun acc c => acc.modify c g) l) := by
+  induction cs generalizing l with
+  | nil => exact h
+  | cons c t ih => simp only [List.foldl_cons]; exact ih _ (allLen_modify h c g hg)
+
+theorem allLen_eraseIdx {n : Nat} {l : List (List Nat)} (h : AllLen n l) (i : Nat) : AllLen n (l.eraseIdx i) :=
+  fun x hx => h x (List.mem_of_mem_eraseIdx hx)
+
+theorem swapVertex_len (k : Kernel) (a b : Nat) (h : HexLen k) : HexLen (k.swapVertex a b) :=
+  h.of_eq (by simp) (by simp)
+
+theorem swapCell_len (k : Kernel) (a b : Nat) (h : HexLen k) : HexLen (k.swapCell a b) := by
+  unfold swapCell; split
+  · exact h
+  · exact ⟨h.1, allLen_swapAt h.2 a b⟩
+
+theorem swapFace_len (k : Kernel) (a b : Nat) (h : HexLen k) : HexLen (k.swapFace a b) := by
+  unfold swapFace; split
+  · exact h
+  · exact ⟨allLen_swapAt h.1 a b, allLen_foldl_modify _ (fun x => by simp) _ _ h.2⟩
+
+theorem swapEdge_len (k : Kernel) (a b : Nat) (h : HexLen k) : HexLen (k.swapEdge a b) := by
+  unfold swapEdge; split
+  · exact h
+  · exact ⟨allLen_foldl_modify _ (fun x => by simp) _ _ h.1, h.2⟩
+
+/-- `delete_cell` in every deletion mode -/
+theorem deleteCellCore_len (k : Kernel) (c : Nat) (h : HexLen k) : HexLen (k.deleteCellCore c) := by
+  unfold deleteCellCore
+  simp only []
+  have h1 : HexLen (if (k.fast && !k.deferred) = true then k.swapCell c (k.nC - 1) else k) := by
+    split
+    · exact swapCell_len k _ _ h
+    · exact h
+  generalize (if (k.fast && !k.deferred) = true then k.swapCell c (k.nC - 1) else k) = k1 at h1 ⊢
+  generalize (if (k.fast && !k.deferred) = true then k.nC - 1 else c) = c1
+  have h2 : HexLen (k1.unlinkCell c1) := h1.of_eq (by simp) (by simp)
+  split
+  · exact h2.of_eq (by simp) (by simp)
+  · have e := allLen_eraseIdx h2.2 c1
+    exact ⟨by simpa using h2.1, by simpa [AllLen] using e⟩
+
+/-- in deferred mode a `delete_*_core` only flags: no definition changes -/
+def SameDefs (k k' : Kernel) : Prop := k'.faces = k.faces ∧ k'.cells = k.cells ∧ k'.deferred = true
+
+theorem deleteCellCore_sameDefs (k0 k : Kernel) (c : Nat) (h : SameDefs k0 k) : SameDefs k0 (k.deleteCellCore c) := by
+  obtain ⟨hf, hc, hd⟩ := h
+  unfold deleteCellCore
+  simp only [hd, Bool.not_true, Bool.and_false, Bool.false_eq_true, if_false, unlinkCell_deferred, if_true]
+  exact ⟨by simp [hf], by simp [hc], by simp [hd]⟩
+
+theorem deleteFaceCore_sameDefs (k0 k : Kernel) (c : Nat) (h : SameDefs k0 k) : SameDefs k0 (k.deleteFaceCore c) := by
+  obtain ⟨hf, hc, hd⟩ := h
+  unfold deleteFaceCore
+  simp only [hd, Bool.not_true, Bool.and_false, Bool.false_eq_true, if_false, unlinkFace_deferred, if_true]
+  exact ⟨by simp [hf], by simp [hc], by simp [hd]⟩
+
+theorem deleteEdgeCore_sameDefs (k0 k : Kernel) (c : Nat) (h : SameDefs k0 k) : SameDefs k0 (k.deleteEdgeCore c) := by
+  obtain ⟨hf, hc, hd⟩ := h
+  unfold deleteEdgeCore
+  simp only [hd, Bool.not_true, Bool.and_false, Bool.false_eq_true, if_false, unlinkEdge_deferred, if_true]
+  exact ⟨by simp [hf], by simp [hc], by simp [hd]⟩
+
+theorem deleteVertexCore_sameDefs (k0 k : Kernel) (c : Nat) (h : SameDefs k0 k) : SameDefs k0 (k.deleteVertexCore c) := by
+  obtain ⟨hf, hc, hd⟩ := h
+  unfold deleteVertexCore
+  simp only [hd, Bool.not_true, Bool.and_false, Bool.false_eq_true, if_false, if_true]
+  exact ⟨by simp [hf], by simp [hc], by simp [hd]⟩
+
+theorem foldl_sameDefs (k0 : Kernel) (core : Kernel → Nat → Kernel) (hcore : ∀ k c, SameDefs k0 k → SameDefs k0 (core k c))
+    (xs : List Nat) (k : Kernel) (h : SameDefs k0 k) : SameDefs k0 (xs.foldl core k) := by
+  induction xs generalizing k with
+  | nil => exact h
+  | cons x t ih => simp only [List.foldl_cons]; exact ih _ (hcore k x h)
+
+/-- deferred deletion of any entity leaves every face and cell definition as it is -/
+theorem delete_deferred_sameDefs (k : Kernel) (x : Nat) (hd : k.deferred = true) :
+    SameDefs k (k.deleteCell x) ∧ SameDefs k (k.deleteFace x) ∧ SameDefs k (k.deleteEdge x) ∧ SameDefs k (k.deleteVertex x) := by
+  have h0 : SameDefs k k := ⟨rfl, rfl, hd⟩
+  refine ⟨deleteCellCore_sameDefs k k x h0, ?_, ?_, ?_⟩
+  · unfold deleteFace
+    exact deleteFaceCore_sameDefs k _ x (foldl_sameDefs k _ (deleteCellCore_sameDefs k) _ k h0)
+  · unfold deleteEdge
+    exact deleteEdgeCore_sameDefs k _ x (foldl_sameDefs k _ (deleteFaceCore_sameDefs k) _ _
+      (foldl_sameDefs k _ (deleteCellCore_sameDefs k) _ k h0))
+  · unfold deleteVertex
+    exact deleteVertexCore_sameDefs k _ x (foldl_sameDefs k _ (deleteEdgeCore_sameDefs k) _ _
+      (foldl_sameDefs k _ (deleteFaceCore_sameDefs k) _ _ (foldl_sameDefs k _ (deleteCellCore_sameDefs k) _ k h0)))
+
+/-! ### check_halfface_ordering accepts ⇒ the walk clauses of HexConv -/
+
+theorem hexGetAdj_sound (k : Kernel) (hf he : Nat) (hfs : List Nat) (x : Nat) (h : k.hexGetAdj hf he hfs = some x) :
+    x ∈ hfs ∧ x ≠ hf ∧ (k.hfHes x).contains (opp he) = true := by
+  unfold hexGetAdj at h
+  have hm := List.mem_of_find?_eq_some h
+  have hp := List.find?_some h
+  simp only [Bool.and_eq_true, bne_iff_ne, ne_eq] at hp
+  exact ⟨hm, hp.1, hp.2⟩
+
+/-- what a successful step of the walk with a known offset says -/
+theorem hexWalkStep_some (k : Kernel) (hfs : List Nat) (self : Nat) (chain : List (Nat × Nat)) (order : List Nat)
+    (o : Nat) (he : Nat) (r : Option Nat) (h : k.hexWalkStep hfs self chain order (some (some o)) he = some r) :
+    r = some ((o + 1) % 4) ∧ ∃ x, k.hexGetAdj self he hfs = some x ∧ hfs[order.getD ((o + 1) % 4) 0]? = some x := by
+  unfold hexWalkStep at h
+  simp only [] at h
+  split at h
+  · rename_i hc
+    simp only [Bool.and_eq_true, beq_iff_eq] at hc
+    obtain ⟨h1, h2⟩ := hc
+    obtain ⟨x, hx⟩ := Option.isSome_iff_exists.mp h2
+    refine ⟨by simpa using h.symm, x, hx, ?_⟩
+    rw [← h1, hx]
+  · simp at h
+
+theorem hexWalkStep_none (k : Kernel) (hfs : List Nat) (self : Nat) (chain : List (Nat × Nat)) (order : List Nat) (he : Nat) :
+    k.hexWalkStep hfs self chain order none he = none := rfl
+
+theorem hexWalkStep_first (k : Kernel) (hfs : List Nat) (self : Nat) (chain : List (Nat × Nat)) (order : List Nat) (he : Nat) :
+    k.hexWalkStep hfs self chain order (some none) he = some (hexOffsetOf chain hfs (k.hexGetAdj self he hfs)) := rfl
+
+theorem walkOk_spec (k : Kernel) (hfs : List Nat) (self p0 p1 p2 p3 e0 e1 e2 e3 : Nat)
+    (hh : k.hfHes self = [e0, e1, e2, e3])
+    (hok : k.hexWalkOk hfs self [(p0, 0), (p1, 1), (p2, 2), (p3, 3)] [p0, p1, p2, p3] = true)
+    (H0 : hexOffsetOf [(p0, 0), (p1, 1), (p2, 2), (p3, 3)] hfs (k.hexGetAdj self e0 hfs) ≠ none) :
+    ∃ off, off < 4 ∧ ∀ i, i < 4 → ∃ x, hfs[[p0, p1, p2, p3].getD ((i + off) % 4) 0]? = some x ∧
+      (k.hfHes x).contains (opp ([e0, e1, e2, e3].getD i 0)) = true := by
+  unfold hexWalkOk at hok
+  rw [hh] at hok
+  simp only [List.foldl_cons, List.foldl_nil, hexWalkStep_first] at hok
+  obtain ⟨o0, ho0⟩ := Option.ne_none_iff_exists'.mp H0
+  rw [ho0] at hok
+  -- the first neighbour
+  have hfirst : o0 < 4 ∧ ∃ x, k.hexGetAdj self e0 hfs = some x ∧ hfs[[p0, p1, p2, p3].getD o0 0]? = some x := by
+    unfold hexOffsetOf at ho0
+    split at ho0
+    · simp at ho0
+    · rename_i x hx
+      simp only [Option.map_eq_some_iff] at ho0
+      obtain ⟨p, hp, rfl⟩ := ho0
+      have hm := List.mem_of_find?_eq_some hp
+      have hq := List.find?_some hp
+      simp only [beq_iff_eq] at hq
+      simp only [List.mem_cons, List.not_mem_nil, or_false] at hm
+      rcases hm with rfl | rfl | rfl | rfl <;> exact ⟨by simp, x, hx, by simpa using hq⟩
+  obtain ⟨ho4, x0, hx0, hy0⟩ := hfirst
+  generalize hch : [(p0, 0), (p1, 1), (p2, 2), (p3, 3)] = chain at hok
+  cases h1 : k.hexWalkStep hfs self chain [p0, p1, p2, p3] (some (some o0)) e1 with
+  | none => rw [h1] at hok; simp [hexWalkStep_none] at hok
+  | some r1 =>
+    obtain ⟨rfl, x1, hx1, hy1⟩ := hexWalkStep_some _ _ _ _ _ _ _ _ h1
+    rw [h1] at hok
+    cases h2 : k.hexWalkStep hfs self chain [p0, p1, p2, p3] (some (some ((o0 + 1) % 4))) e2 with
+    | none => rw [h2] at hok; simp [hexWalkStep_none] at hok
+    | some r2 =>
+      obtain ⟨rfl, x2, hx2, hy2⟩ := hexWalkStep_some _ _ _ _ _ _ _ _ h2
+      rw [h2] at hok
+      cases h3 : k.hexWalkStep hfs self chain [p0, p1, p2, p3] (some (some (((o0 + 1) % 4 + 1) % 4))) e3 with
+      | none => rw [h3] at hok; simp at hok
+      | some r3 =>
+        obtain ⟨rfl, x3, hx3, hy3⟩ := hexWalkStep_some _ _ _ _ _ _ _ _ h3
+        refine ⟨o0, ho4, ?_⟩
+        intro i hi
+        have hi' : i = 0 ∨ i = 1 ∨ i = 2 ∨ i = 3 := by omega
+        rcases hi' with rfl | rfl | rfl | rfl
+        · exact ⟨x0, by rw [Nat.zero_add, Nat.mod_eq_of_lt ho4]; exact hy0, (hexGetAdj_sound _ _ _ _ _ hx0).2.2⟩
+        · exact ⟨x1, by rw [Nat.add_comm]; exact hy1, (hexGetAdj_sound _ _ _ _ _ hx1).2.2⟩
+        · refine ⟨x2, ?_, (hexGetAdj_sound _ _ _ _ _ hx2).2.2⟩
+          have : (2 + o0) % 4 = ((o0 + 1) % 4 + 1) % 4 := by omega
+          rw [this]; exact hy2
+        · refine ⟨x3, ?_, (hexGetAdj_sound _ _ _ _ _ hx3).2.2⟩
+          have : (3 + o0) % 4 = (((o0 + 1) % 4 + 1) % 4 + 1) % 4 := by omega
+          rw [this]; exact hy3
+
+
+/-- the Bool form of the walk clause from its pointwise form -/
+theorem hexWalkAtB_of_spec (k : Kernel) (hfs : List Nat) (pos : Nat) (order : List Nat) (e0 e1 e2 e3 : Nat)
+    (hh : k.hfHes (hfs.getD pos 0) = [e0, e1, e2, e3])
+    (h : ∃ off, off < 4 ∧ ∀ i, i < 4 → ∃ x, hfs[order.getD ((i + off) % 4) 0]? = some x ∧
+      (k.hfHes x).contains (opp ([e0, e1, e2, e3].getD i 0)) = true) :
+    k.hexWalkAtB hfs pos order = true := by
+  obtain ⟨off, ho, hall⟩ := h
+  unfold hexWalkAtB
+  simp only [hh, List.length_cons, List.length_nil, Bool.and_eq_true, List.any_eq_true, List.all_eq_true, List.mem_range]
+  refine ⟨by rfl, off, ho, ?_⟩
+  intro i hi
+  obtain ⟨x, hx, hc⟩ := hall i hi
+  have : hfs.getD (order.getD ((i + off) % 4) 0) 0 = x := by
+    rw [List.getD_eq_getElem?_getD, hx]; rfl
+  rw [this]; exact hc
+
+/-- a neighbour that is neither of the two first halffaces is found by the offset chain -/
+theorem offsetOf_ne_none (h0 h1 h2 h3 h4 h5 x q0 q1 q2 q3 : Nat) (self : Nat)
+    (hq : [q0, q1, q2, q3].Perm [2, 3, 4, 5])
+    (hm : x ∈ [h0, h1, h2, h3, h4, h5]) (hx0 : x ≠ h0) (hx1 : x ≠ h1) :
+    hexOffsetOf [(q0, 0), (q1, 1), (q2, 2), (q3, 3)] [h0, h1, h2, h3, h4, h5] (some x) ≠ none := by
+  unfold hexOffsetOf
+  simp only [ne_eq, Option.map_eq_none_iff, List.find?_eq_none]
+  have hj : ∃ j, j ∈ [2, 3, 4, 5] ∧ [h0, h1, h2, h3, h4, h5][j]? = some x := by
+    simp only [List.mem_cons, List.not_mem_nil, or_false] at hm
+    rcases hm with rfl | rfl | rfl | rfl | rfl | rfl
+    · exact absurd rfl hx0
+    · exact absurd rfl hx1
+    · exact ⟨2, by simp, rfl⟩
+    · exact ⟨3, by simp, rfl⟩
+    · exact ⟨4, by simp, rfl⟩
+    · exact ⟨5, by simp, rfl⟩
+  obtain ⟨j, hj, hjx⟩ := hj
+  have hjq : j ∈ [q0, q1, q2, q3] := hq.mem_iff.mpr hj
+  simp only [List.mem_cons, List.not_mem_nil, or_false] at hjq
+  rcases hjq with rfl | rfl | rfl | rfl
+  · intro hall; exact hall (j, 0) (by simp) (by simpa using hjx)
+  · intro hall; exact hall (j, 1) (by simp) (by simpa using hjx)
+  · intro hall; exact hall (j, 2) (by simp) (by simpa using hjx)
+  · intro hall; exact hall (j, 3) (by simp) (by simpa using hjx)
+
+/-- `check_halfface_ordering` accepts ⇒ walking the first (second) halfface meets positions 2,4,3,5
+    (3,4,2,5) cyclically — provided the neighbour across the *first* halfedge of each of the two is a
+    side halfface (exists and is not the other one of the two) -/
+theorem checkOrdering_walk (k : Kernel) (h0 h1 h2 h3 h4 h5 e0 e1 e2 e3 f0 f1 f2 f3 x y : Nat)
+    (htop : k.hfHes h0 = [e0, e1, e2, e3]) (hbot : k.hfHes h1 = [f0, f1, f2, f3])
+    (hchk : k.hexCheckOrdering [h0, h1, h2, h3, h4, h5] = true)
+    (hx : k.hexGetAdj h0 e0 [h0, h1, h2, h3, h4, h5] = some x) (hxb : x ≠ h1)
+    (hy : k.hexGetAdj h1 f0 [h0, h1, h2, h3, h4, h5] = some y) (hyt : y ≠ h0) :
+    k.hexWalkAtB [h0, h1, h2, h3, h4, h5] 0 specOrderTop = true ∧
+    k.hexWalkAtB [h0, h1, h2, h3, h4, h5] 1 specOrderBot = true := by
+  unfold hexCheckOrdering at hchk
+  simp only [topPos, botPos, offsetTopChain, offsetBotChain, orderTopCheck, orderBotCheck, Bool.and_eq_true] at hchk
+  have ht : [h0, h1, h2, h3, h4, h5].getD 0 0 = h0 := rfl
+  have hb : [h0, h1, h2, h3, h4, h5].getD 1 0 = h1 := rfl
+  rw [ht, hb] at hchk
+  obtain ⟨hx1, hx2, hx3⟩ := hexGetAdj_sound _ _ _ _ _ hx
+  obtain ⟨hy1, hy2, hy3⟩ := hexGetAdj_sound _ _ _ _ _ hy
+  constructor
+  · apply hexWalkAtB_of_spec k _ 0 specOrderTop e0 e1 e2 e3 (by rw [ht]; exact htop)
+    exact walkOk_spec k _ h0 2 4 3 5 e0 e1 e2 e3 htop hchk.1
+      (by rw [hx]; exact offsetOf_ne_none h0 h1 h2 h3 h4 h5 x 2 4 3 5 h0 (by decide) hx1 hx2 hxb)
+  · apply hexWalkAtB_of_spec k _ 1 specOrderBot f0 f1 f2 f3 (by rw [hb]; exact hbot)
+    exact walkOk_spec k _ h1 3 4 2 5 f0 f1 f2 f3 hbot hchk.2
+      (by rw [hy]; exact offsetOf_ne_none h0 h1 h2 h3 h4 h5 y 3 4 2 5 h1 (by decide) hy1 hyt hy2)
+
+/-! ### the automatic re-ordering stores a list that satisfies the walk clause -/
+
+@[simp] theorem hexFillStep_none' (k : Kernel) (h0 : Nat) (hfs : List Nat) (he : Nat) : k.hexFillStep h0 hfs none he = none := rfl
+
+theorem hexFillStep_some_eq (k : Kernel) (h0 : Nat) (hfs : List Nat) (ord : List (Option Nat)) (idx he : Nat) :
+    k.hexFillStep h0 hfs (some (ord, idx)) he =
+      (k.hexGetAdj h0 he hfs).map (fun a => (ord.set (orderTopAdd.getD idx 0) (some a), idx + 1)) := by
+  unfold hexFillStep; cases k.hexGetAdj h0 he hfs <;> rfl
+
+theorem fill4 (k : Kernel) (h0 : Nat) (hfs : List Nat) (ord0 : List (Option Nat)) (e0 e1 e2 e3 : Nat)
+    (p : List (Option Nat) × Nat)
+    (h : [e0, e1, e2, e3].foldl (k.hexFillStep h0 hfs) (some (ord0, 0)) = some p) :
+    ∃ a0 a1 a2 a3, k.hexGetAdj h0 e0 hfs = some a0 ∧ k.hexGetAdj h0 e1 hfs = some a1 ∧
+      k.hexGetAdj h0 e2 hfs = some a2 ∧ k.hexGetAdj h0 e3 hfs = some a3 ∧
+      p.1 = (((ord0.set 2 (some a0)).set 4 (some a1)).set 3 (some a2)).set 5 (some a3) := by
+  simp only [List.foldl_cons, List.foldl_nil] at h
+  rw [hexFillStep_some_eq] at h
+  cases ha0 : k.hexGetAdj h0 e0 hfs with
+  | none => simp [ha0] at h
+  | some a0 =>
+    rw [ha0, Option.map_some, hexFillStep_some_eq] at h
+    cases ha1 : k.hexGetAdj h0 e1 hfs with
+    | none => simp [ha1] at h
+    | some a1 =>
+      rw [ha1, Option.map_some, hexFillStep_some_eq] at h
+      cases ha2 : k.hexGetAdj h0 e2 hfs with
+      | none => simp [ha2] at h
+      | some a2 =>
+        rw [ha2, Option.map_some, hexFillStep_some_eq] at h
+        cases ha3 : k.hexGetAdj h0 e3 hfs with
+        | none => simp [ha3] at h
+        | some a3 =>
+          rw [ha3, Option.map_some] at h
+          refine ⟨a0, a1, a2, a3, rfl, rfl, rfl, rfl, ?_⟩
+          simp only [Option.some.injEq] at h
+          rw [← h]; rfl
+
+theorem hexReorder_spec (k : Kernel) (hfs ord : List Nat) (e0 e1 e2 e3 : Nat)
+    (hh : k.hfHes (hfs.getD 0 0) = [e0, e1, e2, e3]) (h : k.hexReorder hfs = some ord) :
+    ∃ a0 a1 a2 a3 bot, k.hexGetAdj (hfs.getD 0 0) e0 hfs = some a0 ∧ k.hexGetAdj (hfs.getD 0 0) e1 hfs = some a1 ∧
+      k.hexGetAdj (hfs.getD 0 0) e2 hfs = some a2 ∧ k.hexGetAdj (hfs.getD 0 0) e3 hfs = some a3 ∧
+      k.hexFindBottom (hfs.getD 0 0) hfs = some bot ∧ ord = [hfs.getD 0 0, bot, a0, a2, a1, a3] := by
+  unfold hexReorder at h
+  simp only [] at h
+  rw [hh] at h
+  generalize hfs.getD 0 0 = h0 at h ⊢
+  split at h
+  · simp at h
+  · rename_i o idx heq
+    obtain ⟨a0, a1, a2, a3, h0', h1', h2', h3', ho⟩ := fill4 k h0 hfs _ e0 e1 e2 e3 _ heq
+    simp only [] at ho
+    split at h
+    · simp at h
+    · rename_i bot hb
+      refine ⟨a0, a1, a2, a3, bot, h0', h1', h2', h3', hb, ?_⟩
+      rw [ho] at h
+      simp [List.replicate] at h
+      exact h.symm
+
+
+theorem length4_cases {α} (l : List α) (h : l.length = 4) : ∃ a b c d, l = [a, b, c, d] := by
+  match l, h with
+  | [a, b, c, d], _ => exact ⟨a, b, c, d, rfl⟩
+
+theorem hfHes_length (k : Kernel) (hf : Nat) : (k.hfHes hf).length = (k.faceAt (eOf hf)).length := by
+  unfold hfHes; split <;> simp [oppFace]
+
+theorem hfHes_congr (k k' : Kernel) (h : k'.faces = k.faces) (hf : Nat) : k'.hfHes hf = k.hfHes hf := by
+  unfold hfHes faceAt; rw [h]
+
+theorem hexWalkAtB_congr (k k' : Kernel) (h : k'.faces = k.faces) (hfs : List Nat) (pos : Nat) (order : List Nat) :
+    k'.hexWalkAtB hfs pos order = k.hexWalkAtB hfs pos order := by
+  unfold hexWalkAtB; simp only [hfHes_congr k k' h]
+
+/-- the list stored by the re-ordering path: walking its first halfface meets positions 2,4,3,5
+    (starting with position 2 at the first halfedge) -/
+theorem hexReorder_walk (k : Kernel) (hfs ord : List Nat) (h4 : (k.hfHes (hfs.getD 0 0)).length = 4)
+    (h : k.hexReorder hfs = some ord) : k.hexWalkAtB ord 0 specOrderTop = true ∧ ord.getD 0 0 = hfs.getD 0 0 := by
+  obtain ⟨e0, e1, e2, e3, hh⟩ := length4_cases _ h4
+  obtain ⟨a0, a1, a2, a3, bot, h0, h1, h2, h3, _, rfl⟩ := hexReorder_spec k hfs ord e0 e1 e2 e3 hh h
+  refine ⟨?_, rfl⟩
+  apply hexWalkAtB_of_spec k _ 0 specOrderTop e0 e1 e2 e3 (by exact hh)
+  refine ⟨0, by decide, ?_⟩
+  intro i hi
+  have hi' : i = 0 ∨ i = 1 ∨ i = 2 ∨ i = 3 := by omega
+  rcases hi' with rfl | rfl | rfl | rfl
+  · exact ⟨a0, rfl, (hexGetAdj_sound _ _ _ _ _ h0).2.2⟩
+  · exact ⟨a1, rfl, (hexGetAdj_sound _ _ _ _ _ h1).2.2⟩
+  · exact ⟨a2, rfl, (hexGetAdj_sound _ _ _ _ _ h2).2.2⟩
+  · exact ⟨a3, rfl, (hexGetAdj_sound _ _ _ _ _ h3).2.2⟩
+
+/-- the re-ordered list consists of halffaces of the given list -/
+theorem hexReorder_subset (k : Kernel) (hfs ord : List Nat) (h4 : (k.hfHes (hfs.getD 0 0)).length = 4)
+    (hne : hfs ≠ []) (h : k.hexReorder hfs = some ord) : ∀ x ∈ ord, x ∈ hfs := by
+  obtain ⟨e0, e1, e2, e3, hh⟩ := length4_cases _ h4
+  obtain ⟨a0, a1, a2, a3, bot, h0, h1, h2, h3, hb, rfl⟩ := hexReorder_spec k hfs ord e0 e1 e2 e3 hh h
+  have hbot : bot ∈ hfs := by
+    unfold hexFindBottom at hb
+    repeat' split at hb
+    all_goals first | (simp at hb; done) | exact (hexGetAdj_sound _ _ _ _ _ hb).1
+  have hfirst : hfs.getD 0 0 ∈ hfs := by
+    cases hfs with
+    | nil => exact absurd rfl hne
+    | cons a t => simp
+  intro x hx
+  simp only [List.mem_cons, List.not_mem_nil, or_false] at hx
+  rcases hx with rfl | rfl | rfl | rfl | rfl | rfl
+  · exact hfirst
+  · exact hbot
+  · exact (hexGetAdj_sound _ _ _ _ _ h0).1
+  · exact (hexGetAdj_sound _ _ _ _ _ h2).1
+  · exact (hexGetAdj_sound _ _ _ _ _ h1).1
+  · exact (hexGetAdj_sound _ _ _ _ _ h3).1
 
 end Kernel
 end OVM
